@@ -92,6 +92,10 @@ static Val run_life(const Val &c)
     int kind = int(c.at(0).asInt());
     QTemporaryDir tmp(QDir::tempPath() + "/hxlife-XXXXXX");
     { QFile f(tmp.path() + "/big.bin"); f.open(QIODevice::WriteOnly); f.write(QByteArray(300000, 'x')); }
+    for (auto &conn : c.at(1).l)          // a file of many blocks, for transfers that must still be under way when something happens
+        if (conn.at(0).asBytes().contains("huge.bin") && !QFile::exists(tmp.path() + "/huge.bin")) {
+            QFile f(tmp.path() + "/huge.bin"); f.open(QIODevice::WriteOnly); f.write(QByteArray(8 * 1024 * 1024, 'y'));
+        }
     QTcpServer upstream;                     // for the proxy: accepts, swallows the request, answers when asked
     QList<QTcpSocket *> upConns;
     upstream.listen(QHostAddress::LocalHost, 0);
